@@ -240,6 +240,17 @@ def load_known():
     return {'findings': [], 'fixed': []}
 
 
+EXPECTED_DROPS_PATH = os.path.join(ROOT, 'expected_drops.json')
+EXPECTED_DROPS = set(json.load(open(EXPECTED_DROPS_PATH))) if os.path.exists(EXPECTED_DROPS_PATH) else set()
+
+
+def drop_fn(msg):
+    """function a dropped-directive message belongs to (messages start with `<file> :: <selector>: ` or `<selector>: `)"""
+    head = msg.split(': ', 1)[0]
+    sel = head.split(' :: ', 1)[1] if ' :: ' in head else head
+    return short_fn(sel)
+
+
 def relevant(prop, spec, unit, fail):
     """does a failure in `unit` count against property `prop`?"""
     ucfg = spec['units'][unit] if isinstance(spec['units'], dict) else {}
@@ -387,7 +398,15 @@ def check_property(prop, tier='quick'):
             if hit:
                 known_hits.append((hit, f))
             else:
-                violations.append(f)
+                # a proof aid of THIS function (hint / outline / closure / statelift / optional-loop clause) lost its anchor on this tree and is
+                # not among the drops expected on the clean tree (expected_drops.json): the failure may be the missing aid, not the code.
+                # Undecided (exit 2), never an alarm.
+                fshort = strip_mod(f['fn'])
+                lost = [h for h in ur.u.hints_dropped if h not in EXPECTED_DROPS and drop_fn(h) == fshort]
+                if lost:
+                    undecided.append('%s::%s failed %s, but a proof aid of that function lost its anchor on this tree (%s): not a verdict' % (ur.unit, fshort, f['obligation'], lost[0][:200]))
+                else:
+                    violations.append(f)
         # samples
         for rec in ur.u.records[:]:
             if rec.kind == 'fn' and rec.contracted and len(samples) < 6 and fn_relevant(ucfg, short_fn(rec.selector)):
